@@ -413,23 +413,9 @@ def check_cache_key(ctx, w: World, om: OriginModel, ci: CacheInfo, name: str, wh
 
 # ---------------------------------------------------------------------------------
 
-def run(ctx):
-    ctx.explanation = (
-        "Same heap model as C16 (resolved call graph + effect summaries), single thread, arbitrary history. C17.1: every write to "
-        "module-level state reachable from the API is an admitted cache fill whose value is a function of its key, a write-only "
-        "counter, or a scratch buffer that is completely written before it is read in every activation (syntax-directed "
-        "must-define walk with derived fully-defines-parameter summaries); anything else is persistent state that later calls read. "
-        "C17.2: cache keys are complete (every variable the value is computed from feeds the key) and injective (the list indices are "
-        "evaluated with the abstract interpreter for every combination of boolean arguments and checked to be mixed-radix forms with "
-        "disjoint ranges). C17.3: no public function mutates a parameter (transitively). C17.4: public functions return objects "
-        "allocated in the call, never module-level objects. C17.5: no nondeterminism source is reachable.")
-    ctx.trusted_base = ["sa/model.py, sa/effects.py (flow-insensitive points-to, sound for may-write)", "sa/absint.py for the index forms"]
-    ctx.assumptions = ["callers do not mutate package internals from outside the package"]
-    w = World(ctx)
-    om = OriginModel(ctx.sources)
-    for f, d in w.unknown_decorators:
-        ctx.unk("C17.0", f"{f} is wrapped by the decorator @{d}", f"{w.rel_of(f)}:{w.model.funcs[f].node.lineno}",
-                "the effects of the wrapper are not modelled; obligations that involve this function are not decided")
+def check_shared_writes(ctx, w: World, om: OriginModel) -> None:
+    """C17.1 / C17.2: every write to module-level state reachable from the API (ctx may be a core.Recorder); obligations about
+    an object carry extra['owners'] = the API functions from which the write is reached"""
     caches, counters, bad = classify(ctx, w, threads=False)
 
     # ---- C17.1 ---------------------------------------------------------------------------------------------
@@ -442,9 +428,13 @@ def run(ctx):
         where = f"{w.rel_of(sw.origin_func)}:{sw.origin_line}"
         owners = sorted({s.owner for s in sws})
         kinds = {k.split(" (")[0] for x in sws for k in x.kinds}
+        tag = {"owners": owners, "object": obj}
+        _bad = lambda *a_, **k_: ctx.bad(*a_, **{**tag, **k_})
+        _unk = lambda *a_, **k_: ctx.unk(*a_, **{**tag, **k_})
+        _ok = lambda *a_, **k_: ctx.ok(*a_, **{**tag, **k_})
         # (1) entries of a cache container initialised after they were stored
         if sw.field in cache_fields and all(x.depth >= 2 for x in sws):
-            ctx.unk("C17.1", f"entries of cache {obj} are modified after they were stored ({owners[0]})", where,
+            _unk("C17.1", f"entries of cache {obj} are modified after they were stored ({owners[0]})", where,
                     f"`{sw.origin_text}` in {sw.origin_func} writes into an object held by the cache; single-threaded this is the initialisation of a "
                     f"new entry only if it completes before the entry is used, which is not decided")
             continue
@@ -456,7 +446,7 @@ def run(ctx):
                 dep, _ = value_dependencies(w.model, ci)
                 extra = dep - ci.key_vars
                 if extra:
-                    ctx.bad("C17.2", f"table {obj}: the stored value depends on {sorted(extra)}, which is not part of the key `{core.src(ci.key_expr)}`", where,
+                    _bad("C17.2", f"table {obj}: the stored value depends on {sorted(extra)}, which is not part of the key `{core.src(ci.key_expr)}`", where,
                             f"filled by {stores[0].origin_func}; a later call with a different {sorted(extra)[0]} and the same key gets the value of an earlier one")
                     continue
         # (2) one-slot memos: attribute of a singleton, or module-level variables
@@ -475,12 +465,12 @@ def run(ctx):
             x, what, pr = memo
             hard = [p for p in pr if not p.startswith("UNDECIDED")]
             if hard:
-                ctx.bad("C17.1", f"one-slot memo {what} in {x.origin_func} can return a result remembered for a different argument", where,
+                _bad("C17.1", f"one-slot memo {what} in {x.origin_func} can return a result remembered for a different argument", where,
                         "; ".join(hard) + ": what a call returns depends on which call came before")
             elif pr:
-                ctx.unk("C17.1", f"one-slot memo {what} in {x.origin_func}", where, "; ".join(p.replace("UNDECIDED: ", "") for p in pr))
+                _unk("C17.1", f"one-slot memo {what} in {x.origin_func}", where, "; ".join(p.replace("UNDECIDED: ", "") for p in pr))
             else:
-                ctx.ok("C17.1", f"one-slot memo {what} in {x.origin_func} is keyed by exact equality on everything its value is computed from", where,
+                _ok("C17.1", f"one-slot memo {what} in {x.origin_func} is keyed by exact equality on everything its value is computed from", where,
                        "a hit returns what a miss would compute")
             continue
         # (3) scratch buffers: module-level or instance-attribute lists of fixed length used as `out` arguments
@@ -491,21 +481,21 @@ def run(ctx):
             sd = ScratchDiscipline(w, obj, w.eff.object_class(sw.obj), sw.field)
         if sd is not None and sd.components() is not None and kinds <= {"subscript-store:const"}:
             if sd.check() and sd.functions:
-                ctx.ok("C17.1", f"scratch buffer {obj} is completely written before it is read in every activation", where,
+                _ok("C17.1", f"scratch buffer {obj} is completely written before it is read in every activation", where,
                        f"functions naming it: {[f.split('.', 2)[-1] for f in sd.functions]}; no value survives from one call into the next")
             else:
                 f, line, text = sd.problems[0] if sd.problems else ("?", 0, "buffer not found by name")
-                ctx.unk("C17.1", f"shared buffer {obj}: `{text}` in {f} may read what an earlier call left behind", f"{w.rel_of(f) if f in w.model.funcs else ''}:{line}",
+                _unk("C17.1", f"shared buffer {obj}: `{text}` in {f} may read what an earlier call left behind", f"{w.rel_of(f) if f in w.model.funcs else ''}:{line}",
                         f"written by {[o.split('.', 2)[-1] for o in owners]}; the written-before-read discipline is not established, so history "
                         f"independence of the callers is not decided")
             continue
         # (4) certain history dependence: read-modify-write / overwriting components of persistent data
         if any(history_definite(w.model, x) for x in sws):
-            ctx.bad("C17.1", f"persistent shared object {obj} is modified by {owners[0]}", where,
+            _bad("C17.1", f"persistent shared object {obj} is modified by {owners[0]}", where,
                     f"`{sw.origin_text}` in {sw.origin_func} ({', '.join(sorted(kinds))}) changes module-level data that later calls read "
                     f"(reachable via {w.path_to(sw.owner)}): results depend on which calls were made before")
         else:
-            ctx.unk("C17.1", f"shared object {obj} is written by {owners[0]}", where,
+            _unk("C17.1", f"shared object {obj} is written by {owners[0]}", where,
                     f"`{sw.origin_text}` in {sw.origin_func} ({', '.join(sorted(kinds))}) stores a computed value in module-level state (memo, lazy "
                     f"initialisation or eviction idiom that is not one of the verified ones); whether later results depend on it is not decided")
     for (func, fld), (ci, sws) in sorted(caches.items()):
@@ -533,8 +523,12 @@ def run(ctx):
             ctx.ok("C17.1", f"counter {sw.obj}.{attr} never flows into a result", where, "uses: increment, initialisation, comparison guarding a print()")
     ctx.floor("shared containers written from API-reachable code (caches, admitted or not)", len(caches) + len({b.name for b in bad}), 3)
 
+
+
+def check_roots(ctx, w: World, roots=None) -> None:
+    """C17.3 / C17.4 for the given API functions (default: all exported ones)"""
     # ---- C17.3 / C17.4 ---------------------------------------------------------------------------------------
-    for root in w.roots:
+    for root in (roots if roots is not None else w.roots):
         s = w.eff.summaries[root]
         fi = w.model.funcs[root]
         where = f"{fi.rel}:{fi.node.lineno}"
@@ -573,6 +567,27 @@ def run(ctx):
         else:
             ctx.ok("C17.4", f"{root} returns objects allocated in the call (or immutable values)", where,
                    f"returned nodes {sorted(map(str, s.ret))[:4]}")
+
+
+def run(ctx):
+    ctx.explanation = (
+        "Same heap model as C16 (resolved call graph + effect summaries), single thread, arbitrary history. C17.1: every write to "
+        "module-level state reachable from the API is an admitted cache fill whose value is a function of its key, a write-only "
+        "counter, or a scratch buffer that is completely written before it is read in every activation (syntax-directed "
+        "must-define walk with derived fully-defines-parameter summaries); anything else is persistent state that later calls read. "
+        "C17.2: cache keys are complete (every variable the value is computed from feeds the key) and injective (the list indices are "
+        "evaluated with the abstract interpreter for every combination of boolean arguments and checked to be mixed-radix forms with "
+        "disjoint ranges). C17.3: no public function mutates a parameter (transitively). C17.4: public functions return objects "
+        "allocated in the call, never module-level objects. C17.5: no nondeterminism source is reachable.")
+    ctx.trusted_base = ["sa/model.py, sa/effects.py (flow-insensitive points-to, sound for may-write)", "sa/absint.py for the index forms"]
+    ctx.assumptions = ["callers do not mutate package internals from outside the package"]
+    w = World(ctx)
+    om = OriginModel(ctx.sources)
+    for f, d in w.unknown_decorators:
+        ctx.unk("C17.0", f"{f} is wrapped by the decorator @{d}", f"{w.rel_of(f)}:{w.model.funcs[f].node.lineno}",
+                "the effects of the wrapper are not modelled; obligations that involve this function are not decided")
+    check_shared_writes(ctx, w, om)
+    check_roots(ctx, w)
     # ---- C17.5 ------------------------------------------------------------------------------------------------
     nd = []
     for fq, fa in w.eff.analyses.items():
